@@ -288,6 +288,32 @@ func init() {
 					add(h)
 				}
 			}
+			// dedicated: retrievals with the debug options (WithStepDetail, WithDumpEntries) whose assignment hits 9..12
+			// posting lists of one field, between plain retrievals of the same and of smaller assignments (seed C10-8, which
+			// the random histories stopped producing): a dump must not reorder what the scan walks
+			for _, kind := range []string{"kgroups", "compact"} {
+				c := eCase{Kind: kind, Policy: "error"}
+				iv := func(ns ...int64) TV {
+					l := make([]TV, len(ns))
+					for i, n := range ns {
+						l[i] = tvInt("int", n)
+					}
+					return tvSlice("[]int", l...)
+				}
+				for v := int64(1); v <= 12; v++ {
+					c.Docs = append(c.Docs, eDoc{ID: 100 - 7*v, Cons: []eConj{{{F: 0, Inc: true, V: iv(v)}}}}, eDoc{ID: 200 + v, Cons: []eConj{{{F: 0, Inc: true, V: iv(v, 13-v)}, {F: 1, Inc: true, V: tvStr("x")}}}})
+				}
+				c.Docs = append(c.Docs, eDoc{ID: 7, Cons: []eConj{{{F: 0, Inc: false, V: iv(3, 9)}, {F: 1, Inc: true, V: tvStr("x")}}}})
+				all := []eAssign{{F: 0, V: iv(12, 1, 11, 2, 10, 3, 9, 4, 8, 5, 7, 6)}, {F: 1, V: tvStr("x")}}
+				nine := []eAssign{{F: 0, V: iv(1, 2, 4, 5, 6, 7, 8, 10, 11)}, {F: 1, V: tvStr("x")}}
+				few := []eAssign{{F: 0, V: iv(3, 9)}}
+				c.Queries = []eQuery{{A: all}, {A: all, Debug: true}, {A: all}, {A: nine, Debug: true}, {A: few}, {A: nine}, {A: all, Debug: true}, {A: few, Debug: true}, {A: all}}
+				h := histCase{Hist10: true, Cases: []eCase{c}}
+				for range c.Queries {
+					h.Order = append(h.Order, 0)
+				}
+				add(h)
+			}
 			// dedicated: untargeted retrievals (empty assignment, unknown fields only, nil values only) on an index with
 			// match-everything conjunctions, repeated while the caller overwrites the lists it got
 			for _, kind := range []string{"kgroups", "compact"} {
